@@ -19,7 +19,7 @@ import (
 const zzLabelKey = "k"
 
 type zzNodeAttr struct {
-	label  string // "" = absent
+	label  string // "" = absent, "E" = present with the empty value
 	taint  bool
 	tKey   string
 	effect corev1.TaintEffect
@@ -29,9 +29,10 @@ type zzNodeAttr struct {
 }
 
 type zzTplAttr struct {
-	selector   bool   // nodeSelector {k: v}
-	affinityOp string // "" none, In, NotIn, Exists, DoesNotExist (on key k, values [v])
-	tolerates  string // "" none, "k" = tolerates taint key k (Exists, any effect)
+	selector           bool   // nodeSelector {k: v}
+	selectorEmptyValue bool   // ... or {k: ""}: matches a node carrying the label with an empty value, not one lacking it
+	affinityOp         string // "" none, In, NotIn, Exists, DoesNotExist (on key k, values [v])
+	tolerates          string // "" none, "k" = tolerates taint key k (Exists, any effect)
 	// fieldShape: what else the required node affinity contains besides the expression on key k:
 	// "" nothing; "and-name-in" / "and-name-notin": the same term also has matchFields
 	// metadata.name In / NotIn [node0]; "or-name-in": a second (ORed) term matchFields metadata.name In [node0]
@@ -40,7 +41,10 @@ type zzTplAttr struct {
 
 // zzEligible: reference predicate written from the statement of C01.
 func zzEligible(n zzNodeAttr, t zzTplAttr, nodeName string) bool {
-	if t.selector && n.label != "v" {
+	if t.selector && !t.selectorEmptyValue && n.label != "v" {
+		return false
+	}
+	if t.selector && t.selectorEmptyValue && n.label != "E" {
 		return false
 	}
 	// first term: every expression and every field of a term must match
@@ -97,6 +101,9 @@ func zzTemplateFor(tpl zzTplAttr) *datadoghqv1alpha1.ExtendedDaemonSetReplicaSet
 	rs := zzRS(zzRSName, zzHashNew)
 	if tpl.selector {
 		rs.Spec.Template.Spec.NodeSelector = map[string]string{zzLabelKey: "v"}
+		if tpl.selectorEmptyValue {
+			rs.Spec.Template.Spec.NodeSelector[zzLabelKey] = ""
+		}
 	}
 	if tpl.affinityOp != "" || tpl.fieldShape != "" {
 		term := corev1.NodeSelectorTerm{}
@@ -132,7 +139,9 @@ func zzTemplateFor(tpl zzTplAttr) *datadoghqv1alpha1.ExtendedDaemonSetReplicaSet
 
 func zzNodeFor(i int, a zzNodeAttr) *corev1.Node {
 	node := &corev1.Node{ObjectMeta: metav1.ObjectMeta{Name: zzNodeName(i), Labels: map[string]string{}}}
-	if a.label != "" {
+	if a.label == "E" {
+		node.Labels[zzLabelKey] = ""
+	} else if a.label != "" {
 		node.Labels[zzLabelKey] = a.label
 	}
 	if a.taint {
@@ -146,11 +155,13 @@ func zzNodeFor(i int, a zzNodeAttr) *corev1.Node {
 
 func zzPickNodeAttr(l string) zzNodeAttr {
 	a := zzNodeAttr{}
-	switch nondet.String(l+".label", "", "v", "w") {
+	switch nondet.String(l+".label", "", "v", "w", "present-with-empty-value") {
 	case "v":
 		a.label = "v"
 	case "w":
 		a.label = "w"
+	case "present-with-empty-value":
+		a.label = "E"
 	}
 	if nondet.Bool(l + ".tainted") {
 		a.taint = true
@@ -179,7 +190,13 @@ func zzPickNodeAttr(l string) zzNodeAttr {
 }
 
 func zzPickTplAttr() zzTplAttr {
-	tpl := zzTplAttr{selector: nondet.Bool("tpl.selector")}
+	tpl := zzTplAttr{}
+	switch nondet.String("tpl.selector", "none", "value", "empty-value") {
+	case "value":
+		tpl.selector = true
+	case "empty-value":
+		tpl.selector, tpl.selectorEmptyValue = true, true
+	}
 	switch nondet.String("tpl.affinity", "", "In", "NotIn", "Exists", "DoesNotExist") {
 	case "In":
 		tpl.affinityOp = "In"
